@@ -10,7 +10,7 @@ from .c16 import E, Par, gen_world, build_world
 ID = "C17"
 LEVEL = "exploration"
 RULE = ("random parent domains as in C16 (inner lists of length 0-4, overlapping, repeated elements, all lists empty in some "
-        "cases, scalar attribute in some) x variant {the single row | in_ | contains | not_(in_) | not_(contains) | or_(in_, cond) | not_(and_(cond, in_)) | and_(cond, in_)}; a fifth of the cases concatenate two levels (concatenate(flatten(p.items).subs)) with inner objects shared between parents; of an "
+        "cases, scalar attribute in some) x variant {the single row | in_ | contains | not_(in_) | not_(contains) | or_(in_, cond) | not_(and_(cond, in_)) | and_(cond, in_) | membership after an earlier condition has bound the outer variable}; the parent a plain variable, a query with or_ alternatives, or a variable whose given domain holds no parent; a fifth of the cases concatenate two levels (concatenate(flatten(p.items).subs)) with inner objects shared between parents; of an "
         "outer variable over the 5 element objects in a permuted order; caching on/off; every query is evaluated twice and a fresh concatenate over the same objects once more (the value must not drift, the user's lists must stay as they were). Non-trivial: the concatenation has "
         ">= 2 elements from >= 2 parents and, for membership variants, the answer is neither empty nor all. distinct by hash.")
 LEVEL_TEXT = ("Reference-model monitoring: the one-row result is compared element by element (identity, order, multiplicity) "
@@ -28,7 +28,8 @@ def plan(tier, seed):
 def floors(tier):
     return {"distinct_nontrivial": 300, "cls:variant:one": 500, "cls:variant:in": 300, "cls:variant:contains": 300,
             "cls:variant:notin": 300, "cls:variant:notcontains": 200, "cls:variant:or_in": 150, "cls:variant:not_and_in": 150,
-            "cls:variant:and_in": 150, "cls:two_level_concatenate": 300, "cls:plain_scalar_values": 100, "cls:all_empty": 30, "cls:scalar": 100,
+            "cls:variant:and_in": 150, "cls:variant:prebound_in": 150, "cls:variant:prebound_notin": 100,
+            "cls:parent_is_a_query_with_alternatives": 300, "cls:parent_domain_without_parents": 100, "cls:two_level_concatenate": 300, "cls:plain_scalar_values": 100, "cls:all_empty": 30, "cls:scalar": 100,
             "re:Concatenate(@.*)?\\.enter": 2000}
 
 
@@ -53,6 +54,17 @@ def cases(spec, ctx):
             case["nested"] = [[rng.randrange(5) for _ in range(rng.randint(0, 3))] for _ in range(5)]
             case["scalar"] = False
             case["variant"] = rng.choice(["one", "one", "in", "notin"])
+        else:
+            r = rng.random()
+            if r < 0.2:
+                # the parent is itself a query with alternatives: only the parents it selects contribute
+                case["parent_query"] = {"k1": rng.randint(1, 5), "k2": rng.randint(1, 4)}
+                case["variant"] = rng.choice(["one", "in", "notin", "and_in", "prebound_in", "prebound_in", "prebound_notin"])
+            elif r < 0.27:
+                # the given parent domain holds no parent at all (parents exist elsewhere in the process): one row, []
+                case["parent_domain"] = rng.choice(["empty", "other_type"])
+            elif r < 0.35:
+                case["variant"] = rng.choice(["prebound_in", "prebound_notin"])
         yield case
 
 
@@ -78,6 +90,15 @@ def check_case(case, ctx):
         ctx.cls("cls:two_level_concatenate")
     else:
         flat = [p.one for p in ps] if case["scalar"] else [x for p in ps for x in p.items]
+    pq = case.get("parent_query")
+    if pq:
+        ctx.cls("cls:parent_is_a_query_with_alternatives")
+        flat = [x for p in ps if (p.k == pq["k1"] or p.k > pq["k2"]) for x in (([p.one] if case["scalar"] else p.items))]
+    pdom = ps
+    if case.get("parent_domain"):
+        ctx.cls("cls:parent_domain_without_parents")
+        pdom = [] if case["parent_domain"] == "empty" else list(es)
+        flat = []
     dom = [es[i] for i in case["order"]]
     v = case["variant"]
     ctx.cls("cls:variant:" + v)
@@ -89,7 +110,9 @@ def check_case(case, ctx):
     (enable_caching if case["caching"] else disable_caching)()
     try:
         with symbolic_mode():
-            p = let(Par, ps)
+            p = let(Par, pdom)
+            if pq:
+                p = an(entity(p, or_(p.k == pq["k1"], p.k > pq["k2"])))
             if case.get("nested"):
                 allv = concatenate(flatten(p.items).subs)
             else:
@@ -103,14 +126,20 @@ def check_case(case, ctx):
                         "notcontains": lambda: not_(contains(allv, d)),
                         "or_in": lambda: or_(in_(d, allv), d.n == thr),
                         "not_and_in": lambda: not_(and_(d.n > thr, in_(d, allv))),
-                        "and_in": lambda: and_(d.n > thr, in_(d, allv))}[v]()
-                q = an(entity(d, cond))
+                        "and_in": lambda: and_(d.n > thr, in_(d, allv)),
+                        "prebound_in": lambda: in_(d, allv), "prebound_notin": lambda: not_(in_(d, allv))}[v]()
+                if v.startswith("prebound"):    # the outer variable is bound by an earlier condition
+                    q = an(entity(d, d.n != thr, cond))
+                else:
+                    q = an(entity(d, cond))
         snapshot = [list(p_.items) for p_ in ps]
         try:
             got = list(q.evaluate())
             got2 = list(q.evaluate())       # the value is the same list on every evaluation
             with symbolic_mode():           # ... and for a fresh query over the same objects
-                p3 = let(Par, ps)
+                p3 = let(Par, pdom)
+                if pq:
+                    p3 = an(entity(p3, or_(p3.k == pq["k1"], p3.k > pq["k2"])))
                 q3 = an(entity(concatenate(flatten(p3.items).subs) if case.get("nested") else
                                concatenate(p3.one) if case["scalar"] else concatenate(p3.items)))
             got3 = list(q3.evaluate())
@@ -134,7 +163,8 @@ def check_case(case, ctx):
         thr = case.get("thr", 2)
         sel = {"in": member, "contains": member, "notin": lambda x: not member(x), "notcontains": lambda x: not member(x),
                "or_in": lambda x: member(x) or x.n == thr, "not_and_in": lambda x: not (x.n > thr and member(x)),
-               "and_in": lambda x: x.n > thr and member(x)}[v]
+               "and_in": lambda x: x.n > thr and member(x), "prebound_in": lambda x: x.n != thr and member(x),
+               "prebound_notin": lambda x: x.n != thr and not member(x)}[v]
         exp = [lab[id(x)] for x in dom if sel(x)]
         obs = [lab.get(id(x), f"?{type(x).__name__}") for x in got]
         nontrivial = 0 < len(exp) < len(dom)
